@@ -98,26 +98,7 @@ func (vc *VC) call(st *State, v *ssa.Call, c *ssa.CallCommon) error {
 			_ = callee
 		}
 		// a function value held in a parameter or local can carry site assertions: anchor "fn.<name>"
-		fname := ""
-		switch fv := c.Value.(type) {
-		case *ssa.Parameter:
-			fname = fv.Name()
-		case *ssa.FreeVar:
-			fname = fv.Name()
-		case *ssa.UnOp:
-			if a, ok := fv.X.(*ssa.Alloc); ok {
-				fname = a.Comment
-			} else if fvv, ok := fv.X.(*ssa.FreeVar); ok {
-				fname = fvv.Name()
-			} else if fa, ok := fv.X.(*ssa.FieldAddr); ok {
-				// a function value held in a struct field (m.queueFn): anchored by the field name
-				if pt, ok := fa.X.Type().Underlying().(*types.Pointer); ok {
-					if stt, ok := pt.Elem().Underlying().(*types.Struct); ok {
-						fname = stt.Field(fa.Field).Name()
-					}
-				}
-			}
-		}
+		fname := fnValueName(c.Value)
 		ordF := 0
 		if fname != "" && vc.inlineDepth == 0 {
 			vc.callOrd["fn."+fname]++
@@ -394,6 +375,9 @@ func (vc *VC) invoke(st *State, resV ssa.Value, c *ssa.CallCommon) error {
 			vc.unknownCall(st, resV, c, "interface call "+c.Method.Name())
 		}
 		if vc.inlineDepth == 0 {
+			// ghost call counter of the interface method (ncalls(pkg.Iface.Method))
+			nc := "N_" + sanitize(key)
+			st.heap[nc] = vc.define(nc, "Int", sx("+", vc.heapGet(st, nc, "Int"), "1"))
 			return vc.siteAsserts(st, "call", key, ord, "after", allArgs, resV)
 		}
 		return nil
@@ -984,4 +968,29 @@ func (vc *VC) appendSites(st *State, anchor string, ord int, elem Val) error {
 		vc.oblige(st, name, "site", t, ss.Clause.Text, ss.Clause.Props)
 	}
 	return nil
+}
+
+// fnValueName names a called function value for site anchors and ghost counters ("fn.<name>"): the parameter, local,
+// captured variable or struct field that holds it; "" when it has no stable name.
+func fnValueName(v ssa.Value) string {
+	switch fv := v.(type) {
+	case *ssa.Parameter:
+		return fv.Name()
+	case *ssa.FreeVar:
+		return fv.Name()
+	case *ssa.UnOp:
+		if a, ok := fv.X.(*ssa.Alloc); ok {
+			return a.Comment
+		} else if fvv, ok := fv.X.(*ssa.FreeVar); ok {
+			return fvv.Name()
+		} else if fa, ok := fv.X.(*ssa.FieldAddr); ok {
+			// a function value held in a struct field (m.queueFn): anchored by the field name
+			if pt, ok := fa.X.Type().Underlying().(*types.Pointer); ok {
+				if stt, ok := pt.Elem().Underlying().(*types.Struct); ok {
+					return stt.Field(fa.Field).Name()
+				}
+			}
+		}
+	}
+	return ""
 }
